@@ -30,7 +30,7 @@ RULES = {
 _B_COMMON = (
     "Each run is one call of the real fit_to_data / fit_to_variational_target on a real flowjax model drawn from a zoo "
     "(direct bijections inside Transformed, named families, coupling / masked-autoregressive / planar flows, chains, a "
-    "two-level-vmapped scan of spline layers; dims 1-4), with a real flowjax loss "
+    "two-level-vmapped scan of spline layers, single Coupling layers through their own constructor with every split point; dims 1-5), with a real flowjax loss "
     "and a real optax optimiser (sgd, adam, adamw, rmsprop, clip+adam) inside an observing wrapper that records the "
     "parameters and gradients of every step and injects the scheduled faults. NON-TRIVIAL: >=2 gradient steps recorded and no "
     "crash; DISTINCT by signature (model structure, freeze plan, loop, loss, optimiser, steps recorded, multiset of fired "
